@@ -158,6 +158,19 @@ def oracle(rc, st):
                 kids.append(c.contents.get("message_type"))
         return {wa.action_type: kids}
 
+    # the helpers are functions of the list they are given: a second, equal-length list that is allocated
+    # where a just-discarded one lived must be answered from its own messages
+    if rc.model.all_actions():
+        T0 = rc.model.all_actions()[0].atype
+        tmp = list(msgs)
+        LoggedAction.of_type(tmp, T0)
+        del tmp
+        tmp2 = [dict(m) for m in msgs]
+        own = set(id(m) for m in tmp2)
+        for la in LoggedAction.of_type(tmp2, T0):
+            if id(la.start_message) not in own:
+                raise Violation("of_type_stale", "of_type() on a fresh list returned actions built from another list's messages")
+        rc.probe("recycled_list_queried")
     atypes = sorted(set(a.atype for a in rc.model.all_actions()))
     for T in atypes:
         arg = T
@@ -247,9 +260,12 @@ def _expect(st, message):
     perturbed = False
     if st.choose(3, "perturb") == 2:
         perturbed = True
-        if exp and st.choose(2, "perturb-how"):
+        how = st.choose(3, "perturb-how")
+        if exp and how == 1:
             k = sorted(exp)[st.choose(len(exp), "which")]
             exp[k] = ["perturbed", exp[k]]
+        elif how == 2:
+            exp["no_such_field"] = None      # absent is not the same as logged with value None
         else:
             exp["no_such_field"] = 1
     return exp, perturbed
